@@ -29,7 +29,8 @@ CLAIMED = {
             "exhaustively on real files written with a real AES-256-GCM KEK (every bit flip, every truncation length, splices between databases of "
             "the same and of another KEK), oracle: error or exactly the original contents. Random histories with high-entropy marker names/values "
             "are scanned after every call (all files, raw/base64/hex/JSON forms, modes 0600) and validated by TLC, whose Vault!KekOnlyAtOpen fixes "
-            "that the KEK is used exactly once per open/create and never by reads or writes.",
+            "that the KEK is consulted only while the database is opened or created and never by reads or writes; the backup timelines (C17's driver) count "
+            "its uses from the moment the database is open -- none while the server runs, writes and uploads.",
             "Scanning is a byte-level monitor; the specification fixes where and when it applies. Whole-file rollback is out of scope by the property.",
             "TLA+ envelope model + exhaustive tamper enumeration on real files + marker scanning in TLC-validated histories",
             "DESIGN.md §4 C05"),
@@ -95,7 +96,9 @@ CLAIMED = {
             "VaultConc.tla splits every method at the code's lock boundaries (audit outside the mutex, data step inside; conditional get and "
             "list in one critical section). TLC checks all interleavings of a small instance, and -- the deciding part -- validates recorded "
             "concurrent histories of the real server (db API and HTTP handlers, race detector on): begin/end/audit events in one total order, "
-            "the Apply steps left to TLC, which therefore performs the linearizability search per history, including audit order and final state.",
+            "the Apply steps left to TLC, which therefore performs the linearizability search per history, including audit order and final state. "
+            "A 'list' mix (one client changes the two shared names in turn, the others list, up to 150 other secrets sorting between the names) "
+            "holds listings to one state.",
             "Histories are small (2-4 clients x 2-5 calls) and numerous; a race report counts only with a setec frame on the stack.",
             "TLC linearizability search over recorded concurrent histories (trace validation with silent steps) + race detector",
             "DESIGN.md §4 C14"),
@@ -130,7 +133,9 @@ CLAIMED = {
             "service's active one at some instant during the poll), Coalesce and that a failed poll changes nothing, over all interleavings of "
             "activations forwards and backwards, request failures, reads, handles and refresh callers. Random gated histories of the real store "
             "(driver releases each request; service changes between requests; restarts) are validated line by line; the real poller with a real "
-            "time.Ticker on the virtual clock is validated against Cadence.tla (one fixed period within +/-10% of the interval).",
+            "time.Ticker on the virtual clock is validated against Cadence.tla (one fixed period within +/-10% of the interval). With the shipped file "
+            "cache against the real service, a store started from its cache file polls a newer, shorter version: store, cache file, a successor "
+            "store and the file client must hold it (RoundTrip.tla, journey 'newver').",
             "Freshness is judged by version number, as the protocol does. Refresh joiners inherit the first caller's context (not modelled as ending).",
             "TLC exhaustive check of Store.tla (poll configuration) + TLC trace validation of recorded histories + cadence trace validation",
             "DESIGN.md §4 C11"),
@@ -140,7 +145,9 @@ CLAIMED = {
             "give-up at the caller's own deadline, a real service error reported to every member without retry and without installing anything. "
             "TLC checks LookupGate, Bounded and NotCollateral over callers x deadlines x cancellations x services that answer, fail or hang with an "
             "explicit clock; random histories of the real store under synctest (hanging service, clock advanced by up to 20 virtual minutes) are "
-            "validated line by line, so a caller still pending after its bound, a second concurrent request, or a foreign cancellation is rejected.",
+            "validated line by line, so a caller still pending after its bound, a second concurrent request, or a foreign cancellation is rejected. "
+            "Fields.Apply as a caller of lookups (run-time generated struct shapes): at most one request per field naming a secret, nothing "
+            "asked and the missing secret reported when lookups are disabled.",
             "Virtual time; a hanging service is a request the driver never releases.",
             "TLC exhaustive check of Store.tla (lookup configuration) + TLC trace validation of recorded synctest histories",
             "DESIGN.md §4 C16"),
@@ -205,7 +212,8 @@ CLAIMED = {
             "prefixes and every combination of secret value forms (JSON object / JSON number / undecodable bytes / missing), pushes each through the "
             "real ParseFields + Fields.Apply and through NewStore(Structs), and records acceptance or the rejection reason, the names requested, "
             "what every field holds afterwards, whether an error was reported, whether overwriting a populated []byte field changes what the "
-            "store serves, and whether Secret fields follow the next poll while copies keep their value; plus random shapes of 3-6 fields. TLC "
+            "store serves, and whether Secret fields follow the next poll while copies keep their value; plus random shapes of 3-6 fields, half of "
+            "them handed over with every tagged field already holding something, and Apply under a context that is already over. TLC "
             "(FieldsTrace) recomputes every one of these from Fields.tla for every case.",
             "Universality over struct shapes is by bounded enumeration plus generation; prefixes and names are clean slash-separated paths; "
             "unexported or name-ambiguous embedded fields are not generated.",
@@ -215,7 +223,9 @@ CLAIMED = {
             "RoundTrip.tla fixes the journey of a value (put; get and get-version over the real HTTP API; both again after a server restart; a "
             "client Store; the Store's cache document; a successor Store started from that cache with the service unreachable; a file-backed "
             "client on the same file), that every hop must deliver exactly the bytes put, and the one exception the property makes (the "
-            "file-backed client may omit an empty value). Generated byte strings of every named class (empty, NULs, newlines, invalid UTF-8, JSON "
+            "file-backed client may omit an empty value); a name then has a future: a newer, shorter version reaching a running store, its "
+            "shrinking cache file, a successor store and the file client, and the secret deleted and put again until the version number it "
+            "had reached means other bytes. Concurrent gets of large values run with every other reply delivered in pieces. Generated byte strings of every named class (empty, NULs, newlines, invalid UTF-8, JSON "
             "and base64 look-alikes, all byte values, every length residue mod 3, up to megabytes) are driven through the real system and TLC "
             "validates every recorded hop. PutCli.tla is the decision table of `setec put` written from the documented behaviour (with the "
             "latitude where both --verbatim and --trim-space are given); the binary built from the working tree is run for every input class x "
